@@ -1050,6 +1050,7 @@ class Config(DataProxy):
             runtime
             overrides
             modifications
+            deletions
         """.split():
             name = "_{}".format(name)
             my_data = getattr(self, name)
